@@ -551,11 +551,11 @@ def tdb_rules(ctx, A):
     gs = guards_of(tdb) + lifted_guards(tdb, skip={rr.id})
     ok_exit = [x for x in tdb.exits() if x['kind'] == 'ok_some']
     if len(ok_exit) != 1:
-        ctx.fail_closed(['C01', 'C02', 'C03'], 'R-ANCHOR', 'TDB|success-exit', 'expected one Ok(Some(ItemStateResolved{..})) exit, found %d' % len(ok_exit), where)
+        ctx.fail_closed(['C01', 'C02', 'C03', 'C05', 'C07'], 'R-ANCHOR', 'TDB|success-exit', 'expected one Ok(Some(ItemStateResolved{..})) exit, found %d' % len(ok_exit), where)
         return
     isr = ok_exit[0]['expr'][2][0][1][2][0][1]
     if isr[0] != 'agg' or not isr[1].endswith('ItemStateResolved'):
-        ctx.fail_closed(['C01', 'C02', 'C03'], 'R-ANCHOR', 'TDB|success-exit', 'success value is not an ItemStateResolved literal: %s' % show(isr)[:100], where)
+        ctx.fail_closed(['C01', 'C02', 'C03', 'C05', 'C07'], 'R-ANCHOR', 'TDB|success-exit', 'success value is not an ItemStateResolved literal: %s' % show(isr)[:100], where)
         return
     F = dict(isr[2])
     S, AL, inner = F.get('size'), F.get('alignment'), F.get('inner')
@@ -564,7 +564,7 @@ def tdb_rules(ctx, A):
         if isinstance(x, tuple) and x[0] == 'agg' and x[1].endswith('type_definition::TypeDefinition'):
             td = dict(x[2])
     if td is None:
-        ctx.fail_closed(['C01', 'C02', 'C03'], 'R-ANCHOR', 'TDB|success-exit', 'no TypeDefinition literal in the success value', where)
+        ctx.fail_closed(['C01', 'C02', 'C03', 'C05', 'C07'], 'R-ANCHOR', 'TDB|success-exit', 'no TypeDefinition literal in the success value', where)
         return
     R = strip(td['regions'])
     packed = strip(td['packed'])
@@ -731,7 +731,7 @@ def tdb_rules(ctx, A):
             for g in guards_of(callee):
                 if is_g2(g):
                     g2.append((g, is_g2(g), (callee, pg, call)))
-    ctx.ob(['C01', 'C03'], 'R-GUARD', 'G2|field-offset-aligned', len(g2) == 1, 'running offset % alignment(field type) != 0 ⇒ Err', g2[0][0].where() if g2 else where)
+    ctx.ob(['C01', 'C03', 'C02'], 'R-GUARD', 'G2|field-offset-aligned', len(g2) == 1, 'running offset % alignment(field type) != 0 ⇒ Err', g2[0][0].where() if g2 else where)
     if g2:
         g, rem, via = g2[0]
         G = tdb if via is None else via[0]
